@@ -21,9 +21,9 @@ type C02Case struct {
 	Ops   []wire.Op  `json:"ops"` // MergeDocument calls, in order
 	// Chain/Layer place each call in a file layout (file route): layer l of
 	// chain c is file <chain>.<l1>.<l2>...
-	Chain     []int `json:"chain"`
-	Layer     []int `json:"layer"`
-	FileRoute bool  `json:"file_route,omitempty"`
+	Chain     []int    `json:"chain"`
+	Layer     []int    `json:"layer"`
+	FileRoute bool     `json:"file_route,omitempty"`
 	Exts      []string `json:"exts,omitempty"`
 	// Debug: the parser under test logs ("api": SetDebug(true); "env":
 	// BKL_DEBUG=1 in its environment) — an observer that must not matter
@@ -358,23 +358,23 @@ func genC02(r *gen.Rand, maxLayers int) *C02Case {
 }
 
 type c02Obs struct {
-	Clause string `json:"clause"`
-	Op     int    `json:"op"`
-	Doc    int    `json:"doc,omitempty"`
-	Got    any    `json:"got,omitempty"`
-	Want   any    `json:"want,omitempty"`
-	NonTriv bool  `json:"-"`
-	Fanout  int   `json:"-"`
-	Aliased bool  `json:"-"`
+	Clause  string `json:"clause"`
+	Op      int    `json:"op"`
+	Doc     int    `json:"doc,omitempty"`
+	Got     any    `json:"got,omitempty"`
+	Want    any    `json:"want,omitempty"`
+	NonTriv bool   `json:"-"`
+	Fanout  int    `json:"-"`
+	Aliased bool   `json:"-"`
 }
 
 // c02Plan runs the targeting model over the case.
 type c02Plan struct {
-	m        *model.Stream
-	targets  [][]int // per op: state docs merged into
-	created  []bool
-	noMatch  []bool
-	stateAt  []int // number of state docs after each op
+	m       *model.Stream
+	targets [][]int // per op: state docs merged into
+	created []bool
+	noMatch []bool
+	stateAt []int // number of state docs after each op
 }
 
 func planC02(c *C02Case) *c02Plan {
